@@ -18,6 +18,7 @@ def group_dir(group):
 REPO_GROUPS = {
     # in-crate harnesses (private items): cargo kani runs on /repo itself, build output under /verif/.build
     "repo_zonetree": ["unstable-zonetree"],
+    "repo_client": ["unstable-client-transport"],
 }
 
 
@@ -48,6 +49,8 @@ def run_group(group, harnesses, jobs=4, timeout=3600, extra=None, playback=False
     env = dict(os.environ)
     env["CARGO_NET_OFFLINE"] = "true"
     env["CARGO_TARGET_DIR"] = os.path.join(BUILD, "kani-" + group)
+    if group in REPO_GROUPS:
+        env["CARGO_TARGET_DIR"] = os.path.join(BUILD, "kani-repo")
     cmd = ["cargo", "kani", "-Z", "function-contracts", "-Z", "stubbing", "--output-format=terse", "-j", str(jobs)]
     if group in REPO_GROUPS:
         cmd += ["--features", ",".join(REPO_GROUPS[group])]
